@@ -688,6 +688,9 @@ func c11GenScenario(r *kit.Rand, n int, maxTasks int) *c11Scenario {
 	}
 	thrA := kit.Pick(r, []int32{4999, 5000, 5500, 5999, 7500, 7999})
 	thrU := kit.Pick(r, []int32{3999, 5500, 5999, 7999, 9999})
+	if sc.extreme > 0 && r.Pct(50) {
+		thrU = 1<<31 - 1 // keep the pods with extreme spec.priority in the used-strategy lists
+	}
 	for i, f := range chosen {
 		t := &c11Task{idx: i, feature: f, reason: fmt.Sprintf("c11 task %d trigger by koordlet feature %s", i, f), target: map[corev1.ResourceName]int64{}}
 		for _, p := range sc.pods {
